@@ -175,4 +175,37 @@ theorem sessionRetryA_eq (fuel : Nat) (extra : Nat) (σ : BState) (buf : Bytes) 
     | io j => cases extra <;> simp only <;> try rw [ih _ σ' buf' cs' t' more' h6, h5]
     | panic => cases extra <;> simp only <;> try rw [ih _ σ' buf' cs' t' more' h6, h5]
 
+/-! ### `write_all` -/
+
+/-- **short writes are invisible on the wire**: for any capacities ≥ 1, `write_all` succeeds and the
+pieces it writes are, in order, exactly the buffer -/
+theorem writeAll_flatten (caps : List Nat) (buf : Bytes) (h : ∀ c ∈ caps, 1 ≤ c) :
+    ∃ ps, writeAll caps buf = some ps ∧ ps.flatten = buf ∧ ∀ p ∈ ps, p ≠ [] := by
+  induction caps generalizing buf with
+  | nil =>
+    cases buf with
+    | nil => exact ⟨[], rfl, rfl, by simp⟩
+    | cons b bs => exact ⟨[b :: bs], rfl, by simp, by simp⟩
+  | cons c cs ih =>
+    cases buf with
+    | nil => exact ⟨[], by simp [writeAll], rfl, by simp⟩
+    | cons b bs =>
+      have hc : 1 ≤ c := h c (by simp)
+      obtain ⟨ps, h1, h2, h3⟩ := ih ((b :: bs).drop c) (fun x hx => h x (by simp [hx]))
+      refine ⟨(b :: bs).take c :: ps, ?_, ?_, ?_⟩
+      · have : c ≠ 0 := by omega
+        simp [writeAll, this, h1]
+      · simp only [List.flatten_cons, h2, List.take_append_drop]
+      · intro p hp
+        rw [List.mem_cons] at hp
+        rcases hp with rfl | hp
+        · cases c with
+          | zero => omega
+          | succ n => simp
+        · exact h3 p hp
+
+/-- a transport that accepts nothing (`Ok(0)`) is reported, not retried forever -/
+theorem writeAll_zero (cs : List Nat) (b : UInt8) (bs : Bytes) : writeAll (0 :: cs) (b :: bs) = none := by
+  simp [writeAll]
+
 end Mpd.Conn
